@@ -590,7 +590,7 @@ func worker(lo, hi int, tamperEvery int) {
 func main() {
 	r = mon.Start("C14", "exploration")
 	r.SetExhaustive(true)
-	r.Rule("Credentials built with NewKeyCredential from boundary and seeded RSA material (modulus 1..512 octets incl. leading zero / all-ones, exponents 1..2^32-1, primes absent / both / one), the three versions, boundary and random device GUIDs and tick values: the blob is read by an independent MS-ADTS parser, parsed back by the library, re-serialised, integrity-checked; reference-built blobs with other usages/sources/CustomKeyInformation forms are read, re-serialised and integrity-checked by the library; DN-with-binary strings over DNs containing ':' ',' '\\' '=' '+' and non-ASCII. Exhaustive sub-domain: EVERY single-bit flip of every blob selected for tampering (all boundary credentials, every k-th random one). Non-trivial: each distinct credential (version, exponent, modulus, primes, device, ticks), reference blob variant, and DN string.")
+	r.Rule("Credentials built with NewKeyCredential from boundary and seeded RSA material (modulus 1..512 octets incl. leading zero / all-ones, exponents 1..2^32-1, primes absent / both / one), the three versions, boundary and random device GUIDs and tick values: the blob is read by an independent MS-ADTS parser, parsed back by the library, re-serialised, integrity-checked; reference-built blobs with other usages/sources/CustomKeyInformation forms are read, re-serialised and integrity-checked by the library; DN-with-binary strings over DNs containing ':' ',' '\\' '=' '+' and non-ASCII. Exhaustive sub-domain: EVERY single-bit flip of every blob selected for tampering (all boundary credentials, every k-th random one). Non-trivial: each distinct credential (version, exponent, modulus, primes, device, ticks), reference blob variant, and DN string. State monitors (state.go): one KeyCredential reused as the parse target over chains of pool blobs (largest/smallest alternating, pool order, seeded permutations): genuine blob checked, single-bit-tampered copies of it into the same target, genuine again, a target built by NewKeyCredential; the same for RSAKeyMaterial, CustomKeyInformation and DNWithBinary targets; fields assigned and serialised with no call in between; returned slices held and re-compared. Each (chain, blob, step kind) counts once.")
 	r.Assume(
 		"crypto/sha256, encoding/hex, encoding/base64 of the Go standard library are correct",
 		"the entry layout, KeyID = SHA-256(KeyMaterial value) and KeyHash = SHA-256(everything after the KeyHash entry) are taken from MS-ADTS 2.2.20; CUSTOM_KEY_INFORMATION has the 2-byte or the >=19-byte form",
@@ -631,6 +631,9 @@ func main() {
 			r.Sample(map[string]any{"kind": "DN-with-binary", "dn": dn, "text": "B:10:48656c6c6f:" + dn})
 		}
 	}
+	// ---- state.go: receiver reuse (genuine-then-tampered-then-genuine), stale fields, held outputs
+	wg.Add(1)
+	go func() { defer wg.Done(); stateMonitors() }()
 	// ---- a credential from a real RSA key generated by the library itself
 	for _, bits := range []int{1024, 2048} {
 		cert, err := kccrypto.NewX509Certificate("CN=verif", bits, time.Unix(1700000000, 0), time.Unix(1800000000, 0))
